@@ -51,7 +51,7 @@ def act(op, md=None, size=0, code=0, msg=None, det=0):
 def base(proto, shape, codec="proto", **kw):
     c = dict(proto=proto, shape=shape, codec=codec, comp="", opts=[], sizes=[3] if shape in ("unary", "sstream") else [3, 0],
              script=[], reqmd={}, reqwant={}, maxrecv=0, maxsend=0, sched=[], eofwith=False, trunc=0, trunck=0, timeout="",
-             accept="", tag="", binpad=False, exact=False, corrupt=False, boundary=0, wsclose=False, exactrep=False, reqct="", noise=False, wsfrag=0, wsnobody=False)
+             accept="", tag="", binpad=False, exact=False, corrupt=False, boundary=0, wsclose=False, exactrep=False, reqct="", noise=False, wsfrag=0, wsnobody=False, wscloseas=0, plainframes=False)
     c.update(kw)
     return c
 
@@ -189,6 +189,15 @@ def fam_limits(rnd, tier):
                             c["sizes"] = [0]
                             c["script"] = [act("send", size=size)] + ([act("send", size=L)] if shape == "sstream" else []) + [act("ret", code=0)]
                             out.append(c)
+    # a stream that negotiated gzip may still send single messages uncompressed (flag 0): the limit applies to them as is
+    for proto in ["grpc", "grpcweb", "grpcwebtext"]:
+        for L in ([64, 1000] if tier == "quick" else [24, 64, 200, 1000, 5000]):
+            for size in [L - 1, L, L + 1, 10 * L]:
+                for shape in ["unary", "cstream", "bidi"]:
+                    c = base(proto, shape, codec=rnd.choice(["proto", "json"]), comp="gzip", plainframes=True, maxrecv=L, exact=True, tag="limits")
+                    c["sizes"] = [size] if shape == "unary" else [L // 2 + 12, size]
+                    c["script"] = recv_all(c) + ([act("send", size=1)] if shape != "unary" else []) + [act("ret", code=0)]
+                    out.append(c)
     # incompressible content: the gzip form is LARGER than the message, so a message within the limit is over it on the
     # wire (HTTP content-encoding; on gRPC the compressed frame length is checked first, as grpc-go does: not judged)
     for L in ([64, 256, 1000] if tier == "quick" else [64, 100, 256, 1000, 5000]):
@@ -240,7 +249,8 @@ def fam_ws(rnd, tier, part):
                     if not cs(shape) and len(sizes) != 1:
                         continue
                     for wsclose in ([False, True] if cs(shape) else [False]):
-                        c = base("ws", shape, codec="json", sizes=sizes, tag="stream", wsclose=wsclose, wsfrag=rnd.choice([0, 0, 1, 7, 64]))
+                        c = base("ws", shape, codec="json", sizes=sizes, tag="stream", wsclose=wsclose, wsfrag=rnd.choice([0, 0, 1, 7, 64]),
+                                 wscloseas=rnd.choice([0, 1001, -1]))
                         sc = []
                         if cs(shape):
                             nrep = rnd.randint(0, len(sizes)) if shape == "bidi" else 0
@@ -429,7 +439,7 @@ def run(prop, tier, replay=None):
                 elif f.startswith("ws-"):
                     cases += fam_ws(rnd, tier, f[3:])
             # the same gRPC cases once more through a real grpc-go client on a socket (those a real client can send)
-            plain = [c for c in cases if c["proto"] == "grpc" and not (c["sched"] or c["trunc"] or c["corrupt"] or c["eofwith"] or c["boundary"] or c["timeout"])]
+            plain = [c for c in cases if c["proto"] == "grpc" and not (c["sched"] or c["trunc"] or c["corrupt"] or c["eofwith"] or c["boundary"] or c["timeout"] or c.get("plainframes"))]
             if prop != "C18":
                 plain = rnd.sample(plain, min(len(plain), 500 if tier == "quick" else 20000))
             for c in plain:
@@ -533,6 +543,20 @@ def run(prop, tier, replay=None):
                                      h=dict(recv=[]), crash=v["what"], proxy=o)
                 v["signature"].update(code=None, proto="grpc", codec="proto", comp="", truncated=False, stats=False)
                 viol[(v["formula"], "proxy", key[1], "proto", "", None, False, False)] = v
+        if prop == "C05" and not replay:
+            # the status comes from a backend behind RegisterConn: gRPC and HTTP/JSON fronts against a direct client
+            from . import proxy as PX
+            pv, pstat_calls = PX.status_violations(prop, tier, scratch, harness, seed)
+            for key, v in pv.items():
+                kf = C.match_finding(findings, prop, v["signature"])
+                if kf:
+                    known[kf["id"]] += 1
+                    continue
+                o = v["observed"]
+                v["observed"] = dict(c=dict(tag="proxy", proto=key[1], shape=o["s"]["shape"], codec="proto", comp=""), cl=dict(http=200, status=dict(present=False), msgs=[]),
+                                     h=dict(recv=[]), crash=v["what"], proxy=o)
+                v["signature"].update(code=o["s"]["code"], proto=key[1], codec="proto", comp="", truncated=False, stats=False)
+                viol[("StatusFidelity", "proxy-" + key[1], key[2], "proto", "", "in-range", False, key[3])] = v
         ustat = collections.Counter()
         if prop in ("C06", "C08") and (not replay or replay_ups):
             # HttpBody chunk framing: uploads of every length around multiples of the chunk size, through Recv(),
@@ -600,7 +624,7 @@ def run(prop, tier, replay=None):
                          "and judged by TLC against Rpc!View. Non-trivial = RPCs in which the property's antecedent holds (failing handler / "
                          "streaming shape / limit set / metadata set / options installed)."),
                    samples=samples, exhaustive=False, **{k: v for k, v in stat.items() if k not in ("rpcs",)},
-                   proxied_calls_with_interceptors=pstat_calls, httpbody_uploads=ustat["retains"], httpbody_chunks=ustat["chunks"], httpbody_bytes=ustat["bytes"],
+                   proxied_calls=pstat_calls, httpbody_uploads=ustat["retains"], httpbody_chunks=ustat["chunks"], httpbody_bytes=ustat["bytes"],
                    known_findings=dict(known))
         C.write_evidence(prop, tier, "model_checking", cov,
                          ["direct drive through Mux.ServeHTTP with httptest (HTTP/2 framing for gRPC is emulated by ProtoMajor=2 and recorder trailers)",
